@@ -59,6 +59,14 @@ class Fault:
             return comp in self.components and bool(self.pred(x))
         return comp == self.component and idx == self.index
 
+    VALUES = (float("nan"), float("inf"), float("-inf"))
+
+    def value_for(self, comp, idx):
+        """which non-finite value the faulted evaluation returns: NaN, +inf and -inf in turn"""
+        if getattr(self, "value", None) is not None:
+            return self.value
+        return self.VALUES[(idx + COMPONENTS.index(comp)) % 3]
+
 
 def _problem_base():
     from pygradflow.problem import Problem
@@ -122,17 +130,21 @@ class RecordingProblem(ProxyProblem):
             self.fault.fired.append((comp, idx, xa, current_trial()))
         return faulted
 
+    def _bad_value(self, comp):
+        # (the counter was advanced by _note: the current call has index counts - 1)
+        return self.fault.value_for(comp, self.counts[comp] - 1)
+
     def obj(self, x):
         bad = self._note("obj", x)
         v = self.inner.obj(x)
-        return float("nan") if bad else v
+        return self._bad_value("obj") if bad else v
 
     def obj_grad(self, x):
         bad = self._note("obj_grad", x)
         v = self.inner.obj_grad(x)
         if bad:
             v = np.array(v, dtype=float, copy=True)
-            v[0] = np.nan
+            v[(self.counts["obj_grad"] - 1) % v.size] = self._bad_value("obj_grad")
         return v
 
     def cons(self, x):
@@ -140,29 +152,30 @@ class RecordingProblem(ProxyProblem):
         v = self.inner.cons(x)
         if bad:
             v = np.array(v, dtype=float, copy=True)
-            v[0] = np.inf
+            v[(self.counts["cons"] - 1) % v.size] = self._bad_value("cons")
         return v
 
-    def _poison(self, mat):
+    def _poison(self, mat, comp):
+        val = self._bad_value(comp)
         mat = mat.copy().tocoo()
         if mat.nnz == 0:
             import scipy.sparse as sps
 
-            mat = sps.coo_matrix(([np.nan], ([0], [0])), shape=mat.shape)
+            mat = sps.coo_matrix(([val], ([0], [0])), shape=mat.shape)
         else:
             mat.data = np.array(mat.data, dtype=float, copy=True)
-            mat.data[0] = np.nan
+            mat.data[(self.counts[comp] - 1) % mat.data.size] = val
         return mat
 
     def cons_jac(self, x):
         bad = self._note("cons_jac", x)
         v = self.inner.cons_jac(x)
-        return self._poison(v) if bad else v
+        return self._poison(v, "cons_jac") if bad else v
 
     def lag_hess(self, x, y):
         bad = self._note("lag_hess", x)
         v = self.inner.lag_hess(x, y)
-        return self._poison(v) if bad else v
+        return self._poison(v, "lag_hess") if bad else v
 
 
 class FaultLinearSolverFactory:
@@ -236,6 +249,9 @@ class VirtualClock:
         # the virtual clock continues the real one (frozen at its creation), so that anything the code
         # under test captured from the real clock earlier (e.g. at import) stays comparable
         self.T0 = _real_time.time()
+        if ramp is not None:
+            # whole seconds, so that T0 + k*tick and the elapsed times computed from it are exact for dyadic ticks
+            self.T0 = float(int(self.T0))
         self.D0 = self.T0 + 4000.0
         # ramp=tick: deadline reads return T0 + k*tick for the k-th read instead of jumping; the
         # deadline then passes at the first read with k*tick >= time_limit
@@ -266,20 +282,20 @@ class VirtualClock:
             if meth == "elapsed" and caller == "remaining":
                 k = self.limit_reads
                 self.limit_reads += 1
-                if self.ramp is not None:
-                    val = self.T0 + k * self.ramp
-                    if self.time_limit is not None and val - self.T0 >= self.time_limit:
-                        self.expired_seen = True
-                    self.reads.append(("limit", k, "ramp", current_trial()))
-                    self.last_ramp = val
-                    return val
-                if self.expire_at is not None and k >= self.expire_at:
-                    self.expired_seen = True
                 who = ""
                 try:
                     who = f.f_back.f_back.f_back.f_code.co_name
                 except AttributeError:
                     pass
+                if self.ramp is not None:
+                    val = self.T0 + k * self.ramp
+                    if self.time_limit is not None and val - self.T0 >= self.time_limit:
+                        self.expired_seen = True
+                    self.reads.append(("limit", k, who, current_trial()))
+                    self.last_ramp = val
+                    return val
+                if self.expire_at is not None and k >= self.expire_at:
+                    self.expired_seen = True
                 self.reads.append(("limit", k, who, current_trial()))
                 return late if self.expired_seen else self.T0
             self.reads.append(("limit_" + meth, caller))
@@ -411,6 +427,14 @@ def make_monitored_solver(problem, params, extra_callbacks=0):
             except BaseException as ex:
                 rec["exc"] = type(ex).__name__
                 raise
+            script = getattr(self, "lamb_script", None)
+            if script is not None:
+                # stress injection: a step-size policy that answers accepted steps with scripted (extreme) inverse
+                # step sizes; everything else is the real controller's result
+                new = script(rec["i"], res)
+                if new is not None:
+                    res.lamb = float(new)
+                    rec["lamb_scripted"] = True
             tr.objs.append(res.iterate)
             rec.update(lamb=res.lamb, accepted=bool(res.accepted), next=res.iterate, same=res.iterate is iterate,
                        xn=np.copy(res.iterate.x), yn=np.copy(res.iterate.y),
@@ -469,7 +493,7 @@ class Outcome:
 
 
 def run_solve(problem, params, x0=None, y0=None, clock=None, lin_fail=None, lin_record=False,
-              extra_callbacks=0, solver_holder=None, user_callback=None):
+              extra_callbacks=0, solver_holder=None, user_callback=None, lamb_script=None):
     """One monitored solve.  Returns Outcome with .result or .exc (+ .kind, .site),
     .trace, .solver, .factory, .construct_exc."""
     import pygradflow.linear_solver as LS
@@ -505,6 +529,7 @@ def run_solve(problem, params, x0=None, y0=None, clock=None, lin_fail=None, lin_
             out.construct_exc = ex
             return out
         out.solver = solver
+        solver.lamb_script = lamb_script
         if user_callback is not None:
             from pygradflow.callbacks import CallbackType
 
